@@ -1,6 +1,6 @@
 import Ogorek.Lemmas.CPickleRT
+import Ogorek.Lemmas.CPickleSRT
 import Ogorek.Props.C03
-import Ogorek.Props.C02
 import Ogorek.CPickleOK
 
 /-!
@@ -68,7 +68,7 @@ theorem decode_cpickle (cfg : Cfg) (hook : Hook) (p : Nat) (hp5 : p ≤ 5) (v : 
       simp [h2, this]
     · have h1 : (p : Int) ≤ 2 := by omega
       simp [h2, h1]
-  obtain ⟨st2, e2, _, r, hs2, hrep, _⟩ := hrun (0 + his.length) st1 hpo trivial
+  obtain ⟨st2, e2, _, _, r, hs2, hrep, _⟩ := hrun (0 + his.length) st1 hpo trivial
   have hall : runFrom (goCfg cfg) hook 0 (his ++ is) sta = .ok st2 := by
     rw [runFrom_append (goCfg cfg) hook his is 0 sta st1 (hrh 0 sta)]
     exact e2
@@ -125,6 +125,78 @@ theorem C02_pickler_framed (cfg : Cfg) (hook : Hook) (p : Nat) (hp5 : p ≤ 5) (
 
 
 
+/-- The core with the memo read: on a Decoder whose memo is empty. -/
+theorem decode_cpickleS (cfg : Cfg) (hook : Hook) (p : Nat) (hp5 : p ≤ 5) (v : PyObjS) (b : Bytes) (s' : PSt)
+    (hok : pkOK cfg p (erase v)) (hsave : cpSaveS p v ⟨0, []⟩ = some (b, s')) (fr : Bytes) (hfr : fr = [] ∨ ∃ n, fr = 0x95 :: le8 n)
+    (st0 : DState) (hfresh : st0.memo = []) :
+    ∃ r st', decode (goCfg cfg) hook st0 ((if p ≥ 2 then [0x80, UInt8.ofNat p] else []) ++ fr ++ (b ++ [46])) = (.ok r, st', []) ∧
+      Rep (goCfg cfg) GoVal.ref st'.heap r (goOf (erase v)) := by
+  obtain ⟨his, hph, hrh⟩ := header_runs (goCfg cfg) hook p hp5 fr hfr
+  obtain ⟨is, hpar, hrun⟩ := sk_val (mc := goCfg cfg) (hook := hook) rfl p v ⟨0, []⟩ b s' hok hsave
+  let sta : DState := { st0 with stack := [], proto := 0 }
+  let st1 : DState := { sta with proto := if p ≥ 2 then p else sta.proto }
+  have hpo : ProtoOK (ecfg p) st1 := by
+    simp only [ProtoOK, pybuiltinModule, pybuiltinModuleE, ecfg, st1, sta]
+    by_cases h2 : p ≥ 2
+    · have : ((p : Int) ≤ 2) ↔ (p ≤ 2) := by omega
+      simp [h2, this]
+    · have h1 : (p : Int) ≤ 2 := by omega
+      simp [h2, h1]
+  have hinv : MemoInv p ⟨0, []⟩ st1 := by
+    refine ⟨by simp [st1, sta, hfresh], by simp, ?_, ?_⟩
+    · intro k hk; simp [st1, sta, hfresh] at hk
+    · intro k idx hk; simp at hk
+  obtain ⟨st2, e2, _, _, r, hs2, hrep, _⟩ := hrun (0 + his.length) st1 hpo hinv
+  have hall : runFrom (goCfg cfg) hook 0 (his ++ is) sta = .ok st2 := by
+    rw [runFrom_append (goCfg cfg) hook his is 0 sta st1 (hrh 0 sta)]
+    exact e2
+  have hdec := decode_of_run (goCfg cfg) hook st0 st2 _ (his ++ is) r st1.stack (Parses.append hph hpar) hall hs2 hrep.not_mark
+  have hbytes : (if p ≥ 2 then [0x80, UInt8.ofNat p] else []) ++ fr ++ (b ++ [46]) =
+      ((if p ≥ 2 then [0x80, UInt8.ofNat p] else []) ++ fr ++ b) ++ [46] := by simp
+  rw [hbytes]
+  exact ⟨r, _, hdec, RepG.toRep (goCfg cfg) GoVal.ref r (erase v) hrep⟩
+
+/-- **C02 (CPython's pickler with its memo read, protocols 0–5).**  As `C02_pickler`, for objects in which str, bytes
+    and bytearray objects may occur any number of times — the pickler then writes them once and fetches them with
+    BINGET / LONG_BINGET / GET afterwards — and with bytes at protocols 0-2 and bytearray at protocols 0-4, which
+    CPython writes as `_codecs.encode(text, 'latin1')`, `bytes()`, `bytearray(bytes)` through globals (and the string
+    `'latin1'`) that are memoized at their first use and fetched later; GLOBAL below protocol 4, two strings and
+    STACK_GLOBAL from 4 on.  `cpDumpsS` is the model (`Ogorek/CPickleS.lean`), identities being part of the object.
+    On a Decoder whose memo is empty (a new Decoder: MEMOIZE numbers entries by the size of the memo, finding K7),
+    `Decode` of exactly these bytes succeeds, consumes them all and returns the documented Go value.  Proof: the same
+    induction (`sk_val`), every statement now carrying the memo invariant `MemoInv` — the decoder's memo holds exactly the
+    keys "0" … "n-1" and, under each index the pickler may fetch again, the value standing for what was memoized there
+    (`MemoInv.put`, `runs_get`); containers remain tree-shaped (a list fetched twice is finding K1). -/
+theorem C02_pickler_shared (cfg : Cfg) (hook : Hook) (p : Nat) (hp5 : p ≤ 5) (v : PyObjS) (bs : Bytes)
+    (hok : pkOK cfg p (erase v)) (hd : cpDumpsFramedS p v = some bs) (st0 : DState) (hfresh : st0.memo = []) :
+    ∃ r st', decode (goCfg cfg) hook st0 bs = (.ok r, st', []) ∧ Rep (goCfg cfg) GoVal.ref st'.heap r (goOf (erase v)) := by
+  unfold cpDumpsFramedS cpDumpsBodyS at hd
+  cases hs : cpSaveS p v ⟨0, []⟩ with
+  | none => simp [hs] at hd
+  | some r0 =>
+    obtain ⟨b, s'⟩ := r0
+    simp only [hs, Option.map_some, Option.some.injEq] at hd
+    subst hd
+    by_cases hf : 4 ≤ p ∧ 3 ≤ b.length
+    · have := decode_cpickleS cfg hook p hp5 v b s' hok hs (0x95 :: le8 (b ++ [46]).length) (Or.inr ⟨_, rfl⟩) st0 hfresh
+      simpa [hf.1, hf.2] using this
+    · have := decode_cpickleS cfg hook p hp5 v b s' hok hs [] (Or.inl rfl) st0 hfresh
+      simpa [hf] using this
+
+/-- The same without the frame (what is left of a CPython pickle when its FRAME opcodes are taken out). -/
+theorem C02_pickler_shared_unframed (cfg : Cfg) (hook : Hook) (p : Nat) (hp5 : p ≤ 5) (v : PyObjS) (bs : Bytes)
+    (hok : pkOK cfg p (erase v)) (hd : cpDumpsS p v = some bs) (st0 : DState) (hfresh : st0.memo = []) :
+    ∃ r st', decode (goCfg cfg) hook st0 bs = (.ok r, st', []) ∧ Rep (goCfg cfg) GoVal.ref st'.heap r (goOf (erase v)) := by
+  unfold cpDumpsS cpDumpsBodyS at hd
+  cases hs : cpSaveS p v ⟨0, []⟩ with
+  | none => simp [hs] at hd
+  | some r0 =>
+    obtain ⟨b, s'⟩ := r0
+    simp only [hs, Option.map_some, Option.some.injEq] at hd
+    subst hd
+    have := decode_cpickleS cfg hook p hp5 v b s' hok hs [] (Or.inl rfl) st0 hfresh
+    simpa using this
+
 mutual
 /-- From protocol 1 on the hypothesis is decidable. -/
 theorem pkOK_of_b (cfg : Cfg) (p : Nat) (hp : p ≥ 1) : (v : PyObj) → pkOKb cfg v = true → pkOK cfg p v
@@ -174,6 +246,18 @@ example : (cpDumpsFramed 4
 
 example : pkOKb { pyDict := false, su := false }
     (.dict [(.int 1, .str (sb "a")), (.float 0, .none), (.str (sb "k"), .dict [])]) = true := by
+  decide
+
+/-- Non-vacuity for the memo theorem: two records with the same key objects, the same bytes object twice and a
+    bytearray, at protocol 2 (bytes and bytearray through memoized globals): within the model, hypotheses met. -/
+example : (cpDumpsFramedS 2
+    (.list [.dict [(.str 1 (sb "id"), .int 1), (.str 2 (sb "data"), .bytes 3 [1, 2, 255])],
+            .dict [(.str 1 (sb "id"), .int 2), (.str 2 (sb "data"), .bytes 3 [1, 2, 255])], .bytearray 4 [7], .bytes 5 []])).isSome = true := by
+  decide
+
+example : pkOKb { pyDict := true, su := false } (erase
+    (.list [.dict [(.str 1 (sb "id"), .int 1), (.str 2 (sb "data"), .bytes 3 [1, 2, 255])],
+            .dict [(.str 1 (sb "id"), .int 2), (.str 2 (sb "data"), .bytes 3 [1, 2, 255])], .bytearray 4 [7], .bytes 5 []])) = true := by
   decide
 
 end Ogorek
